@@ -243,7 +243,7 @@ Proof.
   set (k := (tok, if is_multicast r then None else Some r)) in *.
   set (s1 := set_outgoing _ _) in H.
   assert (HT' : 0 <= T' < 2 ^ 64) by (apply Z.mod_pos_bound; reflexivity).
-  assert (A1 : aged T' 1 (n + 1) og) by (apply aged_shift; exact HA).
+  assert (A1 : aged T' 1 (n + 1) og). { pose proof (aged_shift _ _ _ _ HA) as A1. replace (0 + 1) with 1 in A1 by lia. exact A1. }
   assert (Fresh : forall e, In e og -> key_eqb k (fst e) = false).
   { intros e He. destruct (aged_in T' og 1 (n + 1) e A1 He) as (a & Ha & Hk).
     destruct (key_eqb k (fst e)) eqn:E; [|reflexivity]. apply key_eqb_spec in E. exfalso.
@@ -285,7 +285,7 @@ Proof.
   induction es as [|e r IH]; intros n s s' os HI Hn H; cbn [run] in H.
   - invpairs. cbn [length]. rewrite Z.add_0_r. exact HI.
   - destruct (step s e) as [s1 o] eqn:S. destruct (run s1 r) as [s2 os'] eqn:R. invpairs.
-    cbn [length] in *. rewrite Nat2Z.inj_succ in *. apply step_tok in S; [|exact HI|lia].
+    cbn [length] in *. rewrite Nat2Z.inj_succ in *. apply (step_tok n) in S; [|exact HI|lia].
     replace (n + Z.succ (Z.of_nat (length r))) with ((n + 1) + Z.of_nat (length r)) by lia.
     eapply IH; [exact S|lia|exact R].
 Qed.
@@ -295,7 +295,7 @@ Lemma outstanding_tokens_distinct_lemma : forall t m a es og, 0 <= t < 2 ^ 64 ->
   outgoing (fst (run (init t m a) es)) = Some og -> NoDup (map (fun e => fst (fst e)) og).
 Proof.
   intros t m a es og Ht Hn Hog. destruct (run (init t m a) es) as [s' os] eqn:R.
-  assert (I0 : TokInv 0 (init t m a)) by (repeat split; try lia; exact Ht || exact I).
+  assert (I0 : TokInv 0 (init t m a)). { unfold TokInv. cbn. split; [exact Ht|]. split; [lia|exact I]. }
   apply (run_tok es 0) in R; [|exact I0|lia]. destruct R as (_ & _ & HA). cbn [fst] in Hog. rewrite Hog in HA.
   eapply aged_nodup; [| |exact HA]; lia.
 Qed.
